@@ -1107,6 +1107,12 @@ fn run_case(ctx: &mut Ctx, h: &Hdr, r: &Rec, case: &str, emit: bool) {
         ctx.fail("x-field-overflow-accepted", format!("{lim}: the BCF writer accepted a record whose count does not fit its site-block field ({} ALT, {} INFO, {} FORMAT keys, POS {})", r.alts.len(), r.info.len(), r.keys.len(), r.pos), case.into());
         return;
     }
+    // a genotype allele index above 62 does not fit the int8 coding ((allele + 1) << 1 | phased): it must
+    // have been refused, never wrapped into another allele, the missing code or end-of-vector
+    if sh.contains(&"gt-allele-above-62") {
+        ctx.fail("x-field-overflow-accepted", format!("gt-allele-above-62: the BCF writer accepted a genotype allele index that does not fit one signed byte: {}", fmt_rec(r)), case.into());
+        return;
+    }
     let rec_bytes = written.stream[written.header_len..written.first_end].to_vec();
     // ---- framing: l_shared + l_indiv + 8 = the record's length, the second copy is identical
     let ls = u32::from_le_bytes(rec_bytes[0..4].try_into().unwrap()) as usize;
